@@ -139,8 +139,8 @@ theorem pushOut_len {s s' : MState F} {o : OpOut F} (h : pushOut host s o = .ok 
     cases hd : host.defer op l r <;> simp [hd] at h <;> subst h <;> simp
   | err e => simp [pushOut] at h
 
-def Plain (s s' : MState F) (b : Nat) (es : List (Nat × Nat)) : Prop :=
-  s'.frames = s.frames ∧ ∃ e ∈ es, s'.pc = e.1 ∧ s'.regs.length = b + e.2
+def Plain (P : Prog F) (s s' : MState F) (b : Nat) (es : List (Nat × Nat)) : Prop :=
+  s'.pc < P.instrs.size ∧ s'.frames = s.frames ∧ ∃ e ∈ es, s'.pc = e.1 ∧ s'.regs.length = b + e.2
 
 theorem finish_running {P : Prog F} {s1 s' : MState F} {n : Nat} (h : finish P (.ok (s1, n)) = .running s') :
     s' = { s1 with pc := n } := by
@@ -148,30 +148,55 @@ theorem finish_running {P : Prog F} {s1 s' : MState F} {n : Nat} (h : finish P (
   split at h <;> simp at h
   exact h.symm
 
+theorem finish_running_lt {P : Prog F} {s1 s' : MState F} {n : Nat} (h : finish P (.ok (s1, n)) = .running s') :
+    n < P.instrs.size := by
+  simp only [finish] at h
+  split at h <;> simp at h
+  omega
+
 theorem seq_running {P : Prog F} {s s1 s' : MState F} (h : seqNext P s (.ok s1) = .running s') :
     s' = { s1 with pc := s.pc + 1 } := finish_running h
 
-/-- generic operator arm -/
+/-- the generic operator arm of `step` -/
+def genericArm (fo : FloatOps F) (host : Host F) (P : Prog F) (s : MState F) (op : Instruction) : StepRes F :=
+  match s.regs with
+  | [] => StepRes.err ErrClass.state
+  | top :: rest =>
+    match unaryOp fo op top with
+    | some o => seqNext P s (pushOut host { s with regs := rest } o)
+    | none =>
+      match rest with
+      | [] => StepRes.err ErrClass.state
+      | l :: rs =>
+        match binaryOp fo op l top with
+        | some o => seqNext P s (pushOut host { s with regs := rs } o)
+        | none => StepRes.err ErrClass.implementation
+
+theorem step_generic {P : Prog F} {s : MState F} {op : Instruction} {o : Option Nat}
+    (hi : P.instrs[s.pc]? = some (op, o)) (hg : (isUnaryOp op || isBinaryOp op) = true) :
+    step fo host P s = genericArm fo host P s op := by
+  unfold step
+  simp only [hi]
+  cases op <;> first | rfl | (simp [isUnaryOp, isBinaryOp] at hg)
+
+theorem edges_generic {P : Prog F} {pc k : Nat} {op : Instruction} {o : Option Nat}
+    (hi : P.instrs[pc]? = some (op, o)) (hg : (isUnaryOp op || isBinaryOp op) = true) :
+    edges P pc k = (if isUnaryOp op then (if 1 ≤ k then some [(pc + 1, k)] else none)
+      else (if 2 ≤ k then some [(pc + 1, k - 1)] else none)) := by
+  unfold edges
+  simp only [hi]
+  cases op <;> first | rfl | (simp [isUnaryOp, isBinaryOp] at hg)
+
 theorem generic_plain {P : Prog F} {s s' : MState F} {op : Instruction} {k b : Nat}
     (hk : s.regs.length = b + k)
-    (hs : (match s.regs with
-      | [] => StepRes.err ErrClass.state
-      | top :: rest =>
-        match unaryOp fo op top with
-        | some o => seqNext P s (pushOut host { s with regs := rest } o)
-        | none =>
-          match rest with
-          | [] => StepRes.err ErrClass.state
-          | l :: rs =>
-            match binaryOp fo op l top with
-            | some o => seqNext P s (pushOut host { s with regs := rs } o)
-            | none => StepRes.err ErrClass.implementation) = .running s')
+    (hs : genericArm fo host P s op = .running s')
     (hu : isUnaryOp op = true → ∀ v, (unaryOp fo op v).isSome)
     (hb : isUnaryOp op = false → ∀ v, unaryOp fo op v = none) :
-    (isUnaryOp op = true → 1 ≤ k → Plain s s' b [(s.pc + 1, k)]) ∧
-    (isUnaryOp op = false → 2 ≤ k → Plain s s' b [(s.pc + 1, k - 1)]) := by
+    (isUnaryOp op = true → 1 ≤ k → Plain P s s' b [(s.pc + 1, k)]) ∧
+    (isUnaryOp op = false → 2 ≤ k → Plain P s s' b [(s.pc + 1, k - 1)]) := by
   constructor
   · intro h1 hk1
+    unfold genericArm at hs
     rcases hr : s.regs with _ | ⟨top, rest⟩
     · simp [hr] at hk; omega
     · simp only [hr] at hs
@@ -184,12 +209,14 @@ theorem generic_plain {P : Prog F} {s s' : MState F} {op : Instruction} {k b : N
         | error e => simp [hp, seqNext] at hs
         | ok s1 =>
           rw [hp] at hs
+          have hlt := finish_running_lt hs
           have := seq_running hs
           obtain ⟨l1, l2, _⟩ := pushOut_len hp
           subst this
           simp [hr] at hk
-          exact ⟨l2, _, List.mem_singleton.2 rfl, rfl, by simp at l1 ⊢; omega⟩
+          exact ⟨hlt, l2, _, List.mem_singleton.2 rfl, rfl, by simp at l1 ⊢; omega⟩
   · intro h1 hk2
+    unfold genericArm at hs
     rcases hr : s.regs with _ | ⟨top, _ | ⟨l, rs⟩⟩
     · simp [hr] at hk; omega
     · simp [hr] at hk; omega
@@ -202,11 +229,12 @@ theorem generic_plain {P : Prog F} {s s' : MState F} {op : Instruction} {k b : N
         | error e => simp [hp, seqNext] at hs
         | ok s1 =>
           rw [hp] at hs
+          have hlt := finish_running_lt hs
           have := seq_running hs
           obtain ⟨l1, l2, _⟩ := pushOut_len hp
           subst this
           simp [hr] at hk
-          exact ⟨l2, _, List.mem_singleton.2 rfl, rfl, by simp at l1 ⊢; omega⟩
+          exact ⟨hlt, l2, _, List.mem_singleton.2 rfl, rfl, by simp at l1 ⊢; omega⟩
 
 theorem needs_some {n k : Nat} {r es : List (Nat × Nat)} (h : (if n ≤ k then some r else none) = some es) :
     n ≤ k ∧ es = r := by
@@ -216,14 +244,15 @@ theorem needs_some {n k : Nat} {r es : List (Nat × Nat)} (h : (if n ≤ k then 
 
 theorem plain_fin {P : Prog F} {s s1 s' : MState F} {t b k' : Nat} {es : List (Nat × Nat)}
     (hs : finish P (.ok (s1, t)) = .running s') (hf : s1.frames = s.frames) (hl : s1.regs.length = b + k')
-    (hm : (t, k') ∈ es) : Plain s s' b es := by
+    (hm : (t, k') ∈ es) : Plain P s s' b es := by
+  have hlt := finish_running_lt hs
   have := finish_running hs
   subst this
-  exact ⟨hf, _, hm, rfl, hl⟩
+  exact ⟨hlt, hf, _, hm, rfl, hl⟩
 
 theorem plain_seq {P : Prog F} {s s1 s' : MState F} {b k' : Nat} {es : List (Nat × Nat)}
     (hs : seqNext P s (.ok s1) = .running s') (hf : s1.frames = s.frames) (hl : s1.regs.length = b + k')
-    (hm : (s.pc + 1, k') ∈ es) : Plain s s' b es := plain_fin hs hf hl hm
+    (hm : (s.pc + 1, k') ∈ es) : Plain P s s' b es := plain_fin hs hf hl hm
 
 theorem unary_table {op : Instruction} : (isUnaryOp op = true → ∀ v : Val F, (unaryOp fo op v).isSome) ∧
     (isUnaryOp op = false → ∀ v : Val F, unaryOp fo op v = none) := by
@@ -234,7 +263,18 @@ edges, consuming and producing exactly the operands of its fixed arity -/
 theorem step_arity {P : Prog F} {s s' : MState F} {i : Instruction} {o : Option Nat} {k b : Nat} {es : List (Nat × Nat)}
     (hi : P.instrs[s.pc]? = some (i, o)) (hk : s.regs.length = b + k) (he : edges P s.pc k = some es)
     (hs : step fo host P s = .running s') (h1 : i ≠ .apply) (h2 : i ≠ .emptyApply) (h3 : i ≠ .endExpression) :
-    Plain s s' b es := by
+    Plain P s s' b es := by
+  by_cases hg : (isUnaryOp i || isBinaryOp i) = true
+  · rw [step_generic hi hg] at hs
+    rw [edges_generic hi hg] at he
+    have hgp := generic_plain (fo := fo) (host := host) hk hs unary_table.1 unary_table.2
+    cases hu : isUnaryOp i
+    · simp only [hu, Bool.false_eq_true, if_false] at he
+      obtain ⟨hk1, rfl⟩ := needs_some he
+      exact hgp.2 hu hk1
+    · simp only [hu, if_true] at he
+      obtain ⟨hk1, rfl⟩ := needs_some he
+      exact hgp.1 hu hk1
   unfold edges at he
   simp only [hi] at he
   unfold step at hs
@@ -427,15 +467,266 @@ theorem step_arity {P : Prog F} {s s' : MState F} {i : Instruction} {o : Option 
       · simp at hs
       · rename_i hn
         exact plain_seq hs rfl (by simp [List.length_drop]; omega) (List.mem_singleton.2 rfl)
-  case add =>
-    simp only [isUnaryOp, isBinaryOp, Bool.false_eq_true, if_false, if_true] at he
-    obtain ⟨hk1, rfl⟩ := needs_some he
-    exact (generic_plain (fo := fo) (host := host) hk hs unary_table.1 unary_table.2).2 rfl hk1
-  all_goals (
-    simp only [isUnaryOp, isBinaryOp, Bool.false_eq_true, if_false, if_true] at he
-    obtain ⟨hk1, rfl⟩ := needs_some he
-    first
-      | exact (generic_plain (fo := fo) (host := host) hk hs unary_table.1 unary_table.2).2 rfl hk1
-      | exact (generic_plain (fo := fo) (host := host) hk hs unary_table.1 unary_table.2).1 rfl hk1)
+  all_goals (simp [isUnaryOp, isBinaryOp] at hg)
+
+/-! ### the invariant and its preservation -/
+
+def base : List (Frame F) → Nat
+  | [] => 0
+  | fr :: _ => fr.saved.length
+
+/-- every frame's return point expects the caller's operands plus the result of the call -/
+def FramesOK (P : Prog F) (d : Array (Option Nat)) : List (Frame F) → Prop
+  | [] => True
+  | fr :: rest => base rest ≤ fr.saved.length ∧
+      (P.instrs.size ≤ fr.ret ∨ d[fr.ret]? = some (some (fr.saved.length - base rest + 1))) ∧ FramesOK P d rest
+
+/-- the frame-relative operand depth at `pc` is the abstract depth (in particular it is not negative) -/
+def Good (P : Prog F) (d : Array (Option Nat)) (s : MState F) : Prop :=
+  base s.frames ≤ s.regs.length ∧ d[s.pc]? = some (some (s.regs.length - base s.frames)) ∧ FramesOK P d s.frames
+
+theorem check_at {P : Prog F} {entries : List Nat} {d : Array (Option Nat)} (hc : checkDepth P entries d = true)
+    {pc k : Nat} (hd : d[pc]? = some (some k)) :
+    ∃ es, edges P pc k = some es ∧ ∀ e ∈ es, P.instrs.size ≤ e.1 ∨ d[e.1]? = some (some e.2) := by
+  simp only [checkDepth, Bool.and_eq_true, beq_iff_eq, List.all_eq_true, List.mem_range] at hc
+  obtain ⟨⟨hsz, _⟩, hall⟩ := hc
+  have hpc : pc < P.instrs.size := by
+    rw [← hsz]
+    exact (Array.getElem?_eq_some_iff.mp hd).1
+  have := hall pc hpc
+  simp only [checkAt, hd] at this
+  split at this
+  · simp at this
+  · rename_i es he
+    refine ⟨es, he, fun e hm => ?_⟩
+    have := List.all_eq_true.1 this e hm
+    simpa using this
+
+theorem check_entry {P : Prog F} {entries : List Nat} {d : Array (Option Nat)} (hc : checkDepth P entries d = true)
+    {t : Nat} (ht : t ∈ entries) : P.instrs.size ≤ t ∨ d[t]? = some (some 0) := by
+  simp only [checkDepth, Bool.and_eq_true, beq_iff_eq, List.all_eq_true] at hc
+  have := hc.1.2 t ht
+  simpa using this
+
+/-- one step of the machine preserves the invariant, provided a call enters an expression body known to the
+analysis (an entry in `entries`) -/
+theorem good_step {P : Prog F} {entries : List Nat} {d : Array (Option Nat)} (hc : checkDepth P entries d = true)
+    {s s' : MState F} (hg : Good P d s) (hs : step fo host P s = .running s')
+    (henter : s'.frames.length = s.frames.length + 1 → s'.pc ∈ entries) : Good P d s' := by
+  obtain ⟨hb, hd, hf⟩ := hg
+  obtain ⟨es, he, hes⟩ := check_at hc hd
+  have hk : s.regs.length = base s.frames + (s.regs.length - base s.frames) := by omega
+  cases hi : P.instrs[s.pc]? with
+  | none => simp [step, hi] at hs
+  | some io =>
+    obtain ⟨i, o⟩ := io
+    by_cases h1 : i = .apply
+    · subst h1
+      simp only [edges, hi] at he
+      obtain ⟨hk2, rfl⟩ := needs_some he
+      rcases hr : s.regs with _ | ⟨r, _ | ⟨l, rs⟩⟩
+      · simp [hr] at hk2
+      · simp [hr] at hk2; omega
+      · simp only [step, hi, hr] at hs
+        simp only [hr, List.length_cons] at hb hd hk2 hk
+        have hedge := hes (s.pc + 1, s.regs.length - base s.frames - 1) (by simp [hr])
+        simp only [hr, List.length_cons] at hedge
+        simp only [applyStep] at hs
+        cases hkind : applyKind fo .apply true l r with
+        | enter j input =>
+          simp only [hkind, jumpTarget] at hs
+          cases hj : P.jumps[j]? with
+          | none => simp [hj, finish, bind, Except.bind] at hs
+          | some t =>
+            simp only [hj, bind, Except.bind] at hs
+            have hlt := finish_running_lt hs
+            have := finish_running hs
+            subst this
+            have hin : t ∈ entries := henter (by simp)
+            rcases check_entry hc hin with h0 | h0
+            · omega
+            · refine ⟨by simp [base], by simpa [base] using h0, ?_, ?_, hf⟩
+              · show base s.frames ≤ rs.length
+                omega
+              · show P.instrs.size ≤ s.pc + 1 ∨ d[s.pc + 1]? = some (some (rs.length - base s.frames + 1))
+                rcases hedge with h | h
+                · exact .inl h
+                · right; rw [h]; congr 2; omega
+        | external n arg =>
+          simp only [hkind] at hs
+          split at hs <;> (
+            have hlt := finish_running_lt hs
+            have := finish_running hs
+            subst this
+            rcases hedge with h | h
+            · omega
+            · refine ⟨?_, ?_, hf⟩
+              · show base s.frames ≤ (_ :: rs).length
+                simp only [List.length_cons]; omega
+              · show d[s.pc + 1]? = some (some ((_ :: rs).length - base s.frames))
+                rw [h]; simp only [List.length_cons]; congr 2; omega)
+        | out oo =>
+          simp only [hkind] at hs
+          cases hp : pushOut host { s with regs := rs } oo with
+          | error e => simp [hp, finish, bind, Except.bind] at hs
+          | ok s1 =>
+            simp only [hp, bind, Except.bind] at hs
+            have hlt := finish_running_lt hs
+            have := finish_running hs
+            subst this
+            obtain ⟨l1, l2, _⟩ := pushOut_len hp
+            simp only at l1 l2
+            rcases hedge with h | h
+            · omega
+            · refine ⟨?_, ?_, ?_⟩
+              · show base s1.frames ≤ s1.regs.length
+                rw [l1, l2]; omega
+              · show d[s.pc + 1]? = some (some (s1.regs.length - base s1.frames))
+                rw [h, l1, l2]; congr 2; omega
+              · show FramesOK P d s1.frames
+                rw [l2]; exact hf
+    · by_cases h2 : i = .emptyApply
+      · subst h2
+        simp only [edges, hi] at he
+        obtain ⟨hk2, rfl⟩ := needs_some he
+        rcases hr : s.regs with _ | ⟨l, rs⟩
+        · simp [hr] at hk2
+        · simp only [step, hi, hr] at hs
+          simp only [hr, List.length_cons] at hb hd hk2 hk
+          have hedge := hes (s.pc + 1, s.regs.length - base s.frames) (by simp [hr])
+          simp only [hr, List.length_cons] at hedge
+          simp only [applyStep] at hs
+          cases hkind : applyKind fo .emptyApply false l .unit with
+          | enter j input =>
+            simp only [hkind, jumpTarget] at hs
+            cases hj : P.jumps[j]? with
+            | none => simp [hj, finish, bind, Except.bind] at hs
+            | some t =>
+              simp only [hj, bind, Except.bind] at hs
+              have hlt := finish_running_lt hs
+              have := finish_running hs
+              subst this
+              have hin : t ∈ entries := henter (by simp)
+              rcases check_entry hc hin with h0 | h0
+              · omega
+              · refine ⟨by simp [base], by simpa [base] using h0, ?_, ?_, hf⟩
+                · show base s.frames ≤ rs.length
+                  omega
+                · show P.instrs.size ≤ s.pc + 1 ∨ d[s.pc + 1]? = some (some (rs.length - base s.frames + 1))
+                  rcases hedge with h | h
+                  · exact .inl h
+                  · right; rw [h]; congr 2; omega
+          | external n arg =>
+            simp only [hkind] at hs
+            split at hs <;> (
+              have hlt := finish_running_lt hs
+              have := finish_running hs
+              subst this
+              rcases hedge with h | h
+              · omega
+              · refine ⟨?_, ?_, hf⟩
+                · show base s.frames ≤ (_ :: rs).length
+                  simp only [List.length_cons]; omega
+                · show d[s.pc + 1]? = some (some ((_ :: rs).length - base s.frames))
+                  rw [h]; simp only [List.length_cons])
+          | out oo =>
+            simp only [hkind] at hs
+            cases hp : pushOut host { s with regs := rs } oo with
+            | error e => simp [hp, finish, bind, Except.bind] at hs
+            | ok s1 =>
+              simp only [hp, bind, Except.bind] at hs
+              have hlt := finish_running_lt hs
+              have := finish_running hs
+              subst this
+              obtain ⟨l1, l2, _⟩ := pushOut_len hp
+              simp only at l1 l2
+              rcases hedge with h | h
+              · omega
+              · refine ⟨?_, ?_, ?_⟩
+                · show base s1.frames ≤ s1.regs.length
+                  rw [l1, l2]; omega
+                · show d[s.pc + 1]? = some (some (s1.regs.length - base s1.frames))
+                  rw [h, l1, l2]
+                · show FramesOK P d s1.frames
+                  rw [l2]; exact hf
+      · by_cases h3 : i = .endExpression
+        · subst h3
+          simp only [step, hi] at hs
+          rcases hr : s.regs with _ | ⟨r, rs⟩
+          · simp [hr] at hs
+          · simp only [hr] at hs
+            rcases hfr : s.frames with _ | ⟨fr, frs⟩
+            · simp only [hfr] at hs
+              split at hs <;> simp at hs
+            · simp only [hfr] at hs
+              have hlt := finish_running_lt hs
+              have := finish_running hs
+              subst this
+              simp only [hfr, FramesOK] at hf
+              obtain ⟨f1, f2, f3⟩ := hf
+              rcases f2 with h | h
+              · omega
+              · refine ⟨?_, ?_, f3⟩
+                · show base frs ≤ (r :: fr.saved).length
+                  simp only [List.length_cons]; omega
+                · show d[fr.ret]? = some (some ((r :: fr.saved).length - base frs))
+                  rw [h]; simp only [List.length_cons]; congr 2; omega
+        · have hp := step_arity (fo := fo) (host := host) hi hk he hs h1 h2 h3
+          obtain ⟨hlt, pf, e, hm, hpc, hl⟩ := hp
+          rcases hes e hm with h | h
+          · omega
+          · exact ⟨by rw [pf, hl]; omega, by rw [hpc, h, pf, hl]; congr 2; omega, by rw [pf]; exact hf⟩
+
+/-! ### soundness -/
+
+/-- executions of the machine in which every call enters an expression body known to the analysis -/
+inductive ReachK (fo : FloatOps F) (host : Host F) (P : Prog F) (entries : List Nat) : MState F → MState F → Prop where
+  | refl (s : MState F) : ReachK fo host P entries s s
+  | snoc {s s' s'' : MState F} : ReachK fo host P entries s s' → step fo host P s' = .running s'' →
+      (s''.frames.length = s'.frames.length + 1 → s''.pc ∈ entries) → ReachK fo host P entries s s''
+
+/-- **absDepth_sound**: if the analysis returns an assignment `d`, then in every state reached from the entry (no
+operands, no frames) the operand depth relative to the current frame is `d[pc]` — a natural number, so never
+negative — and every frame's return point is consistent with it -/
+theorem absDepth_sound {P : Prog F} {entry : Nat} {d : Array (Option Nat)} (h : absDepth P entry = some d)
+    (hentry : entry < P.instrs.size) (vals : List (Val F)) (tr : List (HostCall F)) {s : MState F}
+    (hr : ReachK fo host P (entry :: exprEntries P) ⟨entry, [], vals, [], tr⟩ s) : Good P d s := by
+  have hc := absDepth_checked h
+  induction hr with
+  | refl =>
+    rcases check_entry hc (List.mem_cons_self) with h0 | h0
+    · omega
+    · exact ⟨Nat.le_refl _, by simpa [base] using h0, trivial⟩
+  | snoc _ hs hen ih => exact good_step hc ih hs hen
+
+/-- … in particular the depth is exactly 1 at every `EndExpression` that is reached, and every reached
+instruction finds the operands of its arity (`edges` is defined at the abstract depth) -/
+theorem absDepth_endExpression_one {P : Prog F} {entry : Nat} {d : Array (Option Nat)} (h : absDepth P entry = some d)
+    (hentry : entry < P.instrs.size) (vals : List (Val F)) (tr : List (HostCall F)) {s : MState F}
+    (hr : ReachK fo host P (entry :: exprEntries P) ⟨entry, [], vals, [], tr⟩ s)
+    {o : Option Nat} (hi : P.instrs[s.pc]? = some (.endExpression, o)) :
+    s.regs.length = base s.frames + 1 := by
+  obtain ⟨hb, hd, _⟩ := absDepth_sound (fo := fo) (host := host) h hentry vals tr hr
+  obtain ⟨es, he, _⟩ := check_at (absDepth_checked h) hd
+  simp only [edges, hi] at he
+  split at he
+  · omega
+  · cases he
+
+theorem absDepth_operands_present {P : Prog F} {entry : Nat} {d : Array (Option Nat)} (h : absDepth P entry = some d)
+    (hentry : entry < P.instrs.size) (vals : List (Val F)) (tr : List (HostCall F)) {s : MState F}
+    (hr : ReachK fo host P (entry :: exprEntries P) ⟨entry, [], vals, [], tr⟩ s) :
+    ∃ es, edges P s.pc (s.regs.length - base s.frames) = some es := by
+  obtain ⟨_, hd, _⟩ := absDepth_sound (fo := fo) (host := host) h hentry vals tr hr
+  obtain ⟨es, he, _⟩ := check_at (absDepth_checked h) hd
+  exact ⟨es, he⟩
+
+/-- The statement that remains open (decided per program by running the verified analysis, suite ABSDEPTH, on the
+implementation's own instruction stream): every compiled program in which `^~` occurs in tail positions only —
+in every body, not just the top-level one — is balanced. Operand-position `^~` (`{ 1 + (^~ 2) }`) is rejected by
+the analysis by design: the depth at the body's entry then differs by path (DESIGN §6 C06 "Decision recorded
+here"); an else-chain without a final arm is rejected with depth 0 at `EndExpression` (finding #6). -/
+def C06_compile_balanced_statement {Prg : Type} (compile : Prg → Prog F) (WF : Prg → Prop) : Prop :=
+  ∀ p, WF p → ∃ d, absDepth (compile p) ((compile p).jumps[0]?.getD 0) = some d
 
 end Garnish.Props.C06
